@@ -618,7 +618,11 @@ class CppFullGenerator(GeneratorBase):
                 raise GenerateError('{0} byte size unknown'.format(n.name))
             if isinstance(n, model.Struct):
                 occured = set()
+                names = set(m.name for m in n.members)
                 for m in n.members:
+                    if m.bound and m.bound not in names:
+                        raise GenerateError("{}.{} is sized by '{}', which is not a member of the struct".format(
+                            n.name, m.name, m.bound))
                     if m.bound:
                         if m.bound in occured:
                             raise GenerateError('Multiple arrays bounded by the same member ({}) in struct {} is '
